@@ -574,6 +574,10 @@ func stateRules(c *Ctx) {
 		poolToGoroutine(c, g, short1)
 		// ---- a pooled list used with whatever an earlier call left in it
 		poolSliceHygiene(c, g, short1)
+		// ---- the last, unterminated line of an input dropped together with the end-of-input error
+		lastLineDropped(c, g, short1)
+		// ---- bytes of an argument re-labelled as a string without a copy
+		unsafeAlias(c, g, short1)
 	}
 	// parsers that link features to a local Sequence (shared by C01, C14, C15)
 	switch c.Prop {
@@ -1459,6 +1463,103 @@ func poolSliceHygiene(c *Ctx, g *ssa.Function, short1 string) {
 					return
 				}
 			}
+		}
+	})
+}
+
+// lastLineDropped: line, err := r.ReadString(d) (or ReadBytes) whose line is looked at only where err is
+// nil. ReadString returns the data read before the error together with the error: at end of input that is
+// the final line when it lacks the delimiter. A branch on err != nil that never touches the line loses it.
+func lastLineDropped(c *Ctx, g *ssa.Function, short1 string) {
+	eachInstr(g, func(i ssa.Instruction) {
+		call, ok := i.(*ssa.Call)
+		if !ok || call.Referrers() == nil {
+			return
+		}
+		n := calleeName(call)
+		if n != "(*bufio.Reader).ReadString" && n != "(*bufio.Reader).ReadBytes" {
+			return
+		}
+		var line, errV ssa.Value
+		for _, r := range *call.Referrers() {
+			if ex, isEx := r.(*ssa.Extract); isEx {
+				if ex.Index == 0 {
+					line = ex
+				} else {
+					errV = ex
+				}
+			}
+		}
+		if line == nil || errV == nil || errV.Referrers() == nil || line.Referrers() == nil {
+			return
+		}
+		// the branch on err != nil / err == nil taken directly on this error
+		var errIf *ssa.If
+		onTrueIsErr := true
+		for _, r := range *errV.Referrers() {
+			bo, ok := r.(*ssa.BinOp)
+			if !ok || bo.Referrers() == nil {
+				continue
+			}
+			k, isK := bo.Y.(*ssa.Const)
+			if !isK || !k.IsNil() {
+				continue
+			}
+			for _, rr := range *bo.Referrers() {
+				if ifi, isIf := rr.(*ssa.If); isIf && ifi.Block() == call.Block() {
+					errIf, onTrueIsErr = ifi, bo.Op.String() == "!="
+				}
+			}
+		}
+		if errIf == nil {
+			return
+		}
+		okSucc := errIf.Block().Succs[1]
+		if !onTrueIsErr {
+			okSucc = errIf.Block().Succs[0]
+		}
+		if len(okSucc.Preds) != 1 {
+			return // the two branches join at once: the line is looked at on both
+		}
+		used := false
+		onlyWhereOK := true
+		for _, r := range *line.Referrers() {
+			if _, isDbg := r.(*ssa.DebugRef); isDbg {
+				continue
+			}
+			used = true
+			if !(r.Block() == okSucc || okSucc.Dominates(r.Block())) {
+				onlyWhereOK = false
+			}
+		}
+		if used && onlyWhereOK {
+			c.bad("STATE", "last-line:"+short1, call.Pos(), fmt.Sprintf("%s reads lines with %s and looks at the line only where the error is nil: at the end of an input whose last line has no line feed, ReadString hands back that line TOGETHER with io.EOF, and it is dropped", short1, n))
+		}
+	})
+}
+
+// unsafeAlias: a string or slice header built over the bytes of an argument with package unsafe: the result
+// shares memory with the caller's buffer and changes when the caller re-uses it.
+func unsafeAlias(c *Ctx, g *ssa.Function, short1 string) {
+	tb := newTB(g)
+	eachInstr(g, func(i ssa.Instruction) {
+		cv, ok := i.(*ssa.Convert)
+		if !ok || tname(cv.Type()) != "unsafe.Pointer" {
+			return
+		}
+		d, _ := dependsOnArgs(tb.T(cv.X))
+		if a, isA := cv.X.(*ssa.Alloc); isA && a.Referrers() != nil {
+			// &param: the parameter lives in a cell because its address is taken
+			for _, r := range *a.Referrers() {
+				if st, isSt := r.(*ssa.Store); isSt && st.Addr == ssa.Value(a) {
+					if _, isP := st.Val.(*ssa.Parameter); isP {
+						d = true
+					}
+				}
+			}
+		}
+		if d {
+			c.bad("STATE", "unsafe-alias:"+short1, cv.Pos(), fmt.Sprintf("%s converts memory of an argument through unsafe.Pointer (a string made over the caller's bytes without a copy): what it returns changes when the caller re-uses the buffer", short1))
 		}
 	})
 }
